@@ -5,7 +5,7 @@ package c07
 // concurrent askers, echo / silent / error-replying / double-replying / late receivers, timeouts from
 // 1 µs to 50 ms and a generous one. Every ask is classified (own reply, timeout, …); the Lean judge
 // (MV.Spec.Future.askVerdict) decides on the classes. Nothing here is compared with "how long it
-// took" except one-sidedly with a wide margin (completion later than timeout + 2 s).
+// took" except one-sidedly with a wide margin (completion later than timeout + 10 s).
 //
 //	ask <ctx|sys|typed|sysspawn> <askers> <each> <echo|silent|error|double|late> <timeout_us>
 
@@ -35,15 +35,17 @@ type goMsg struct {
 	run func(ctx vivid.ActorContext)
 }
 
-const hangMargin = 5 * time.Second
-const lateMargin = 2 * time.Second
+// margins are wide on purpose: the sandbox may be heavily loaded (stalls of several seconds were seen)
+const hangMargin = 30 * time.Second
+const lateMargin = 10 * time.Second
 
 var askClasses = []string{"own", "timeout", "errreply", "second", "wrong", "wrongerr", "errvalue", "nilok", "other", "hang", "panic", "unstable", "skipped"}
 
 type askTally struct {
-	mu   sync.Mutex
-	n    map[string]int
-	late int
+	mu    sync.Mutex
+	n     map[string]int
+	late  int
+	maxMs int64 // slowest completion (diagnostics only; never judged)
 }
 
 func (t *askTally) add(c string, late bool) {
@@ -51,6 +53,14 @@ func (t *askTally) add(c string, late bool) {
 	t.n[c]++
 	if late {
 		t.late++
+	}
+	t.mu.Unlock()
+}
+
+func (t *askTally) took(d time.Duration) {
+	t.mu.Lock()
+	if ms := d.Milliseconds(); ms > t.maxMs {
+		t.maxMs = ms
 	}
 	t.mu.Unlock()
 }
@@ -120,6 +130,12 @@ func await(get func() (any, error), limit time.Duration) (o askOutcome, hung boo
 	case o = <-ch:
 		return o, false
 	case <-time.After(limit):
+		// prefer a result that is there by now (the whole process may have been stalled)
+		select {
+		case o = <-ch:
+			return o, false
+		default:
+		}
 		return o, true
 	}
 }
@@ -186,13 +202,20 @@ func (askRunner) Step(t []string) string {
 	one := func(asker, seq int, start func() func() (any, error)) {
 		t0 := time.Now()
 		get := start()
-		o, hung := await(get, timeout+hangMargin)
+		limit := timeout + hangMargin
+		if limit > 40*time.Second {
+			// only the generous timeout is that long, and it is only used with receivers whose answer is
+			// due at once: no result after 40 s is reported as a hang (the judge demands a result there)
+			limit = 40 * time.Second
+		}
+		o, hung := await(get, limit)
 		if hung {
 			anyHang.Store(true)
 			tally.add("hang", false)
 			return
 		}
 		late := time.Since(t0) > timeout+lateMargin
+		tally.took(time.Since(t0))
 		if o.pan {
 			tally.add("panic", late)
 			return
@@ -285,13 +308,15 @@ func (askRunner) Step(t []string) string {
 	wg.Wait()
 	// registry: every temporary reply address is gone (event-driven wait with a cap)
 	delta := 0
-	deadline := time.Now().Add(3*time.Second + timeout)
+	// (every ask has completed; Unregister follows close(done) in the completing goroutine, so only
+	// scheduling delay is waited for here)
+	deadline := time.Now().Add(5 * time.Second)
 	for {
 		delta = len(vivid.VerifRegistryAddresses(sys)) - before - spawned
 		if delta == 0 || time.Now().After(deadline) {
 			break
 		}
-		time.Sleep(time.Millisecond)
+		time.Sleep(5 * time.Millisecond)
 	}
 	leaked := ""
 	if delta != 0 {
@@ -305,7 +330,7 @@ func (askRunner) Step(t []string) string {
 	for _, c := range askClasses {
 		fmt.Fprintf(&sb, "%s=%d ", c, tally.n[c])
 	}
-	fmt.Fprintf(&sb, "late=%d req=%d nilreq=%d regdelta=%d spawnpanic=%s%s", tally.late, req.Load(), nilreq.Load(), delta, b01(spawnPanic), leaked)
+	fmt.Fprintf(&sb, "late=%d req=%d nilreq=%d regdelta=%d spawnpanic=%s maxms=%d%s", tally.late, req.Load(), nilreq.Load(), delta, b01(spawnPanic), tally.maxMs, leaked)
 	return sb.String()
 }
 
@@ -327,7 +352,7 @@ func askGen(rng *proto.RNG, tier string, shard, nshards int, w *bufio.Writer) {
 	}
 	entries := []string{"ctx", "sys", "typed", "sysspawn"}
 	recvs := []string{"echo", "silent", "error", "double", "late"}
-	generous := 5000000
+	generous := 60000000
 	// (ii) small systematic sweep: every entry × receiver, one and several askers, generous timeout for
 	// the replying receivers (the outcome is then determined), 20 ms for the silent ones
 	for _, e := range entries {
@@ -343,9 +368,9 @@ func askGen(rng *proto.RNG, tier string, shard, nshards int, w *bufio.Writer) {
 		}
 	}
 	// concurrent askers sharing the id counter of the root context: many asks
-	heavy := 1500
+	heavy := 600
 	if tier == "thorough" {
-		heavy = 6000
+		heavy = 4000
 	}
 	for _, e := range []string{"sys", "typed", "sysspawn"} {
 		emit(fmt.Sprintf("ask %s 16 %d echo %d", e, heavy, generous))
